@@ -8,13 +8,13 @@ import json
 import random
 
 NPOOL = 48
-CHAN_TY = 20   # palette[20] = <-chan int
+CHAN_TY = 20   # palette[20] = map[*Prov]<-chan int: providable, and its name needs escaping in HTML-like labels
 rng = random.Random(424242)
 
 
 def gotype(ty):
     if ty == CHAN_TY:
-        return "<-chan int"
+        return "map[*Prov]<-chan int"
     if ty >= 16:
         return f"I{ty - 16}"
     return f"T{ty}"
@@ -117,6 +117,19 @@ def gen_sig(i):
 
 
 sigs = [gen_sig(i) for i in range(NPOOL)]
+# a few functions RETURN the type whose name needs escaping (plain, named, in a result object),
+# a few REQUIRE it: it then appears in labels, node IDs and edges of the DOT text
+for i, nm in ((5, 0), (17, 1), (29, 3), (41, 0)):
+    rs = sigs[i]["results"]
+    leaf = {"k": "single", "ty": CHAN_TY, "name": nm, "as": []}
+    if rs and rs[0]["k"] == "obj":
+        rs[0]["fields"].append(leaf)
+    elif nm == 0:
+        rs.append(leaf)
+    else:
+        sigs[i]["results"] = [{"k": "obj", "fields": rs + [leaf]}]
+for i, nm in ((11, 0), (23, 1), (35, 3)):
+    sigs[i]["params"].append({"k": "obj", "fields": [{"k": "single", "ty": CHAN_TY, "name": nm, "opt": False}]})
 go = ['// Code generated by tools/mkpool.py; DO NOT EDIT.', 'package main', '', 'import (', '\t"reflect"', '', '\t"go.uber.org/dig"', ')', '',
       '// Declared functions with distinct code pointers.  Each delegates to the',
       '// generic body of the harness (poolCall), which logs the execution with the',
